@@ -105,8 +105,9 @@ def gen_cases(rng, tier):
             s2 = nw.translate_spec(s2, c + off - nw.center_of(s2))
             meta = dict(stream="nested", kinds=[s1["kind"], s2["kind"]], L=nw.scene_scale([s1, s2]))
         else:
-            s1, s2, meta = nw.gen_pair(rng, tier, stream="gap", gap=rng.choice([0.0, 1e-9, -1e-9, 1e-6, -1e-6]))
-            meta["stream"] = "touch"
+            s1, s2, meta = nb.construct_gap(rng, rng.choice(nw.KINDS), rng.choice(nw.KINDS), 0.0,
+                                            stream=rng.choice(["lattice", "moderate"]),
+                                            abs_gap=rng.choice([0.0, 1e-9, -1e-9, 1e-6, -1e-6]))
         cases.append(dict(c1=s1, c2=s2, meta=meta))
     for c in cases:
         c["ops"] = ops_for(c["c1"], c["c2"])
